@@ -50,6 +50,37 @@ def reader_rows(p, rd):
             if nm.endswith("parser.parse") and e.args:
                 s = src_of(e.args[0], depth + 1)
                 return (s[0], "date") if s else None
+            if nm.endswith("fromisoformat") and e.args:
+                s = src_of(e.args[0], depth + 1)
+                return (s[0], "date") if s else None
+            if nm.endswith("strptime") and len(e.args) >= 2:
+                # a fixed layout reads back only what has exactly that layout: isoformat() omits the fraction when it is zero and
+                # writes the offset as +HH:MM - recognised as harmful unless the layout is exactly what the writer's formatter emits
+                s = src_of(e.args[0], depth + 1)
+                fmt = p.fold(e.args[1], rd)
+                return (s[0], f"lossy:strptime({fmt!r}) - a fixed layout, while the writer's isoformat() drops a zero fraction") if s else None
+            # a helper of the package with one value parameter: what its returns do to that parameter
+            tgs = [t for t in p.resolve_call(e, rd) if t in p.funcs]
+            if len(tgs) == 1 and len(e.args) == 1 and not e.keywords and depth < 3:
+                h = p.funcs[tgs[0]]
+                hp = [x for x in h.params if x not in ("self", "cls")]
+                s_arg = src_of(e.args[0], depth + 1)
+                if s_arg and len(hp) == 1:
+                    outs = []
+                    saved = locals_src.get(hp[0], "<none>")
+                    locals_src[hp[0]] = s_arg
+                    try:
+                        for rn in [n for n in walk_no_nested(h.node) if isinstance(n, ast.Return)]:
+                            if rn.value is None or (isinstance(rn.value, ast.Constant) and rn.value.value is None):
+                                continue
+                            outs.append(src_of(rn.value, depth + 1))
+                    finally:
+                        if saved == "<none>":
+                            locals_src.pop(hp[0], None)
+                        else:
+                            locals_src[hp[0]] = saved
+                    if outs and all(o is not None and o == outs[0] for o in outs):
+                        return outs[0]
             # value-changing string methods: recognised as harmful (case folding / trimming loses what was written)
             if isinstance(e.func, ast.Attribute) and e.func.attr in LOSSY_STR_METHODS:
                 s = src_of(e.func.value, depth + 1)
@@ -355,8 +386,65 @@ def run(report, p):
 
     # ------------------------------------------------------------------ R10.2
     r2 = report.rule("R10.2", "escaping: no non-constant string is written raw into a manifest or chain file; every variable value travels through an lxml element (E(...), .text, .attrib) and etree.tostring", 4)
+    def _interpolated_values(f, e, depth=0):
+        """[(function, value expression)] that a run-time built markup string interpolates (f-string fields, str.format arguments, + operands),
+        following local names and package helpers that return such a string; None when the construction is not understood"""
+        if depth > 3:
+            return None
+        if isinstance(e, ast.Constant):
+            return []
+        if isinstance(e, ast.JoinedStr):
+            return [(f, v.value) for v in e.values if isinstance(v, ast.FormattedValue)]
+        if isinstance(e, ast.BinOp) and isinstance(e.op, ast.Add):
+            a, b = _interpolated_values(f, e.left, depth), _interpolated_values(f, e.right, depth)
+            return None if a is None or b is None else a + b
+        if isinstance(e, ast.Call) and isinstance(e.func, ast.Attribute) and e.func.attr == "format" and isinstance(p.fold(e.func.value, f), str):
+            return [(f, a) for a in e.args] + [(f, k.value) for k in e.keywords]
+        if isinstance(e, ast.Name):
+            binds = [n for n in walk_no_nested(f.node) if isinstance(n, ast.Assign) and len(n.targets) == 1 and isinstance(n.targets[0], ast.Name) and n.targets[0].id == e.id]
+            if len(binds) == 1:
+                return _interpolated_values(f, binds[0].value, depth + 1)
+            return None
+        if isinstance(e, ast.Call):
+            tg = [t for t in p.resolve_call(e, f) if t in p.funcs]
+            if len(tg) == 1:
+                h = p.funcs[tg[0]]
+                out = []
+                for rn in [n for n in walk_no_nested(h.node) if isinstance(n, ast.Return) and n.value is not None]:
+                    sub = _interpolated_values(h, rn.value, depth + 1)
+                    if sub is None:
+                        return None
+                    out += sub
+                return out
+        return None
+
+    def _judge_raw(f, node, expr):
+        """VIOLATION only when a name-like value (path / file name / folder name / comment ...) is interpolated without an XML escape; markup built by hand with
+        every such value escaped is a different architecture, not a defect: that is reported as not analysable"""
+        vals = _interpolated_values(f, expr) if expr is not None else None
+        if vals is None:
+            return "unknown"
+        verdict = "escaped"
+        for vf, v in vals:
+            t = norm(v)
+            esc = isinstance(v, ast.Call) and norm(v.func).split(".")[-1] in ("escape", "quoteattr")
+            if esc:
+                continue
+            ty = p.etype(v, vf)
+            if ty is not None and ty[0] == "B" and ty[1] == "int":
+                continue
+            if any(k in t.lower() for k in ("path", "filename", "file_name", "name", "comment", "location", "pattern", "text")):
+                return f"`{t[:60]}` is interpolated into markup without XML escaping"
+            verdict = "unknown"
+        return verdict
+
     for x in raw:
-        r2.check(False, x.func, x.node, "a non-constant string is written into the XML file without going through the escaping builder (names with & < > \" would corrupt the document)", construct=f"raw dynamic write {norm(x.node)[:60]}")
+        arg = x.node.args[0] if isinstance(x.node, ast.Call) and x.node.args else None
+        # the writer helper's own parameter: judge what the callers pass (done below at the call sites)
+        j = _judge_raw(x.func, x.node, arg)
+        if j in ("escaped", "unknown"):
+            continue
+        r2.check(False, x.func, x.node, f"a non-constant string is written into the XML file without going through the escaping builder: {j} (names with & < > \" would corrupt the document)", construct=f"raw dynamic write {norm(x.node)[:60]}")
     sw, ew = em.writer_roles()
     for fq, param in list(sw.items()) + list(ew.items()):
         f = p.funcs[fq]
@@ -368,13 +456,23 @@ def run(report, p):
         if f.module.name.endswith("_xml_parser"):
             ts = [n for n in walk_no_nested(f.node) if isinstance(n, ast.Call) and norm(n.func).endswith("etree.tostring")]
             r2.check(len(ts) == 1 and norm(ts[0].args[0]) == param, f, f.node, "the element writer does not serialise its element with etree.tostring", construct=f"{f.name}: tostring")
+    _not_modelled = []
     for w in (mw, cw):
         for c, tg in p.calls[w.qual]:
             for t in tg:
                 if t in sw and p.funcs[t].module is w.module:
                     arg = p.bind_args(p.funcs[t], c).get(sw[t])
                     v = p.fold(arg, w) if arg is not None else None
-                    r2.check(isinstance(v, (str, bytes)), w, c, f"`{norm(arg)[:60]}` is written raw (not a constant): it bypasses XML escaping", construct=f"raw write of {norm(arg)[:60]}")
+                    if isinstance(v, (str, bytes)):
+                        r2.check(True, w, c, "")
+                        continue
+                    j = _judge_raw(w, c, arg)
+                    if j in ("escaped", "unknown"):
+                        _not_modelled.append(f"{w.loc(c)}: `{norm(arg)[:60]}` is markup assembled at run time and written raw ({'every name-like value is escaped by hand' if j == 'escaped' else 'what it interpolates could not be established'}); this writer architecture is not modelled")
+                        continue
+                    r2.check(False, w, c, f"`{norm(arg)[:60]}` is written raw (not a constant) and bypasses XML escaping: {j}", construct=f"raw write of {norm(arg)[:60]}")
+    if _not_modelled and not any(not fd_.ok for fd_ in getattr(r2, "checks", []) ) and not r2.findings:
+        raise AnalysisError(_not_modelled[0])
     # f-strings / concatenation with markup anywhere in the writer modules
     for m in (mw.module, cw.module):
         for n in ast.walk(m.tree):
